@@ -344,16 +344,27 @@ fn argument_separator(input: &[u8]) -> ParseResult<()> {
     Ok((input, ()))
 }
 
+/// Tries the next alternative, unless the previous one ran out of input: data
+/// that ends inside of an element is incomplete, not invalid.
+fn unless_incomplete<T>(
+    error: ParseError, next: impl FnOnce() -> Result<T, ParseError>,
+) -> Result<T, ParseError> {
+    match error {
+        ParseError::Incomplete => Err(ParseError::Incomplete),
+        _ => next(),
+    }
+}
+
 /// Parses an argument value.
 fn argument(input: &[u8]) -> ParseResult<Value<'_>> {
     characters(input)
-        .or_else(|_| decimal_numeric_program_data(input))
-        .or_else(|_| hexadecimal_numeric_program_data(input))
-        .or_else(|_| binary_numeric_program_data(input))
-        .or_else(|_| octal_numeric_program_data(input))
-        .or_else(|_| single_quoted_string_program_data(input))
-        .or_else(|_| double_quoted_string_program_data(input))
-        .or_else(|_| arbitrary_program_data(input))
+        .or_else(|e| unless_incomplete(e, || decimal_numeric_program_data(input)))
+        .or_else(|e| unless_incomplete(e, || hexadecimal_numeric_program_data(input)))
+        .or_else(|e| unless_incomplete(e, || binary_numeric_program_data(input)))
+        .or_else(|e| unless_incomplete(e, || octal_numeric_program_data(input)))
+        .or_else(|e| unless_incomplete(e, || single_quoted_string_program_data(input)))
+        .or_else(|e| unless_incomplete(e, || double_quoted_string_program_data(input)))
+        .or_else(|e| unless_incomplete(e, || arbitrary_program_data(input)))
 }
 
 /// Parses multiple arguments separated by commas.
